@@ -10,7 +10,7 @@ package main
 //	ao-run  <script> <D> <a>                                  => res=… cancel=… time=… resolve=…
 //	ao-race <script> <D> <a> res=… cancel=… time=… resolve=…  => racy      (observation checked by the Lean monitor for membership)
 //	ao-double resolve2=<ok|blocked|panic>                     => documented
-//	ao-site <file>:<func>                                     => buffered=… readsAfterWait=… propagatesErr=… deadline=… | unknown
+//	ao-site <file>:<func>                                     => (buffered=… readsAfterWait=… propagatesErr=… deadline=… | unknown) scope=…
 //
 // D = ctx time-out in ms, a = script delay in ms.  Time classes: before (< D),
 // ontime (D … D+aoMargin), late (> D+aoMargin).  The real wrappers themselves
@@ -369,10 +369,10 @@ func aoSites(c *Ctx) {
 			if len(aoCallsNamed(fd, "NewAsyncOp")) == 0 {
 				continue
 			}
-			facts := aoAnalyse(fset, fd)
+			facts := aoAnalyse(fset, fd) + " scope=" + aoScope(fd)
 			c.E.Line(fmt.Sprintf("ao-site %s:%s", filepath.Base(path), fd.Name.Name), facts)
 			tag := "site:recognised"
-			if facts == "unknown" {
+			if strings.HasPrefix(facts, "unknown") {
 				tag = "site:unknown"
 			}
 			c.E.EndCase(true, tag)
@@ -426,6 +426,119 @@ func aoMethodCalls(n ast.Node, recv, method string) []*ast.CallExpr {
 
 func aoWithin(inner, outer ast.Node) bool {
 	return outer != nil && inner.Pos() >= outer.Pos() && inner.End() <= outer.End()
+}
+
+// aoScope: where does the asyncOp (and the context it watches) live relative to the gocbcore request
+// whose callback resolves it?  Independent of aoAnalyse (it also answers for shapes that one gives up on).
+//
+//	single       the request is issued straight in the function body: one asyncOp, one request per call
+//	per-request  the request is issued inside a loop body / function literal (several requests per call) and
+//	             `NewAsyncOp(…)` as well as the `ctx, … := context.With…(…)` it is given are inside the SAME
+//	             innermost loop body / function literal: every request has its own asyncOp and deadline
+//	shared       the request is inside a loop body / function literal but the asyncOp or its context is
+//	             created outside of it: several requests signal ONE buffer-1 channel
+//	unknown      not recognised
+func aoScope(fd *ast.FuncDecl) string {
+	news := aoCallsNamed(fd, "NewAsyncOp")
+	if len(news) != 1 || len(news[0].Args) != 1 {
+		return "unknown"
+	}
+	newCall := news[0]
+	opm := ""
+	ast.Inspect(fd, func(n ast.Node) bool {
+		if as, ok := n.(*ast.AssignStmt); ok && len(as.Lhs) == 1 && len(as.Rhs) == 1 && as.Rhs[0] == ast.Expr(newCall) {
+			if id, ok := as.Lhs[0].(*ast.Ident); ok {
+				opm = id.Name
+			}
+		}
+		return true
+	})
+	if opm == "" {
+		return "unknown"
+	}
+	// the statement that creates the context handed to NewAsyncOp (nil: a parameter / context.Background())
+	var ctxAssign *ast.AssignStmt
+	if x, ok := newCall.Args[0].(*ast.Ident); ok {
+		ast.Inspect(fd, func(n ast.Node) bool {
+			as, ok := n.(*ast.AssignStmt)
+			if !ok || len(as.Lhs) < 1 || as.Pos() > newCall.Pos() {
+				return true
+			}
+			if id, ok := as.Lhs[0].(*ast.Ident); ok && id.Name == x.Name && (ctxAssign == nil || as.Pos() > ctxAssign.Pos()) {
+				ctxAssign = as
+			}
+			return true
+		})
+	}
+	// callbacks: innermost function literals that call opm.Resolve()
+	var callbacks []*ast.FuncLit
+	ast.Inspect(fd, func(n ast.Node) bool {
+		fl, ok := n.(*ast.FuncLit)
+		if !ok || len(aoMethodCalls(fl.Body, opm, "Resolve")) == 0 {
+			return true
+		}
+		inner := false
+		ast.Inspect(fl.Body, func(m ast.Node) bool {
+			if fl2, ok := m.(*ast.FuncLit); ok && len(aoMethodCalls(fl2.Body, opm, "Resolve")) > 0 {
+				inner = true
+			}
+			return true
+		})
+		if !inner {
+			callbacks = append(callbacks, fl)
+		}
+		return true
+	})
+	if len(callbacks) == 0 {
+		return "unknown"
+	}
+	worst := "single"
+	for _, cb := range callbacks {
+		// the request: the call that takes the callback as an argument
+		var req *ast.CallExpr
+		ast.Inspect(fd, func(n ast.Node) bool {
+			if ce, ok := n.(*ast.CallExpr); ok {
+				for _, a := range ce.Args {
+					if a == ast.Expr(cb) {
+						req = ce
+					}
+				}
+			}
+			return true
+		})
+		if req == nil {
+			return "unknown"
+		}
+		// innermost loop body / function literal around the request
+		var encl ast.Node
+		ast.Inspect(fd.Body, func(n ast.Node) bool {
+			var cand ast.Node
+			switch v := n.(type) {
+			case *ast.FuncLit:
+				if v != cb {
+					cand = v
+				}
+			case *ast.ForStmt:
+				cand = v.Body
+			case *ast.RangeStmt:
+				cand = v.Body
+			}
+			if cand != nil && aoWithin(req, cand) && (encl == nil || aoWithin(cand, encl)) {
+				encl = cand
+			}
+			return true
+		})
+		switch {
+		case encl == nil:
+		case aoWithin(newCall, encl) && (ctxAssign == nil || aoWithin(ctxAssign, encl)):
+			if worst == "single" {
+				worst = "per-request"
+			}
+		default:
+			worst = "shared"
+		}
+	}
+	return worst
 }
 
 // aoAnalyse recognises the wrapper pattern in one function; anything it is not sure about is "unknown".
